@@ -9,20 +9,24 @@ from ..refs import dip_ref as D
 from ..refs import units_ref as R
 
 ID = "C16"
-RULE = ("One constrained node per program (int / float with units, str, bool; scalar, or 1-2-D int array for dimension "
-        "bounds; definition or declaration) with any subset of: per-line options and !options lists (units of the same "
-        "dimension), a !condition built from 1-3 comparisons of {?} with unit-bearing literals joined by && or || "
-        "(single comparisons included; thresholds as literals - fractional ones against int nodes too - or held by another "
-        "node of the same type in another unit), an anchored !format, array dimension bounds; the final value is given directly "
-        "or by 1-2 later modifications and is placed ON a boundary (equal, or equal after unit conversion; only with "
-        "the tolerant operators == != <= >=), NEAR it (1e-4 relative away) or OFF it. The truth of every constraint is "
-        "known by construction (never computed with re or the logical solver). Oracle: all satisfied -> parse() "
-        "returns and the value equals the model; any violated -> parse() raises. Non-trivial: >=2 constraint kinds on "
-        "the node, or an option/threshold in another unit, or a boundary (ON/NEAR) value. "
-        "Also: the mirror image of a numeric case (all numbers negated, inequalities reversed); two !condition lines on one "
-        "node; typed re-definitions of arrays with dimensions of their own; array values returned by a registered function; a !condition that refers to another node, with either node "
-        "assigned last, in the same text or in a second parse on top of the returned environment. "
-        "Distinct = distinct rendered text.")
+RULE = (
+    'One constrained node per program (int / float with units, str, bool; scalar, or 1-2-D int array for '
+    'dimension bounds; definition or declaration) with any subset of: per-line options and !options lists (units '
+    'of the same dimension), a !condition built from 1-3 comparisons of {?} with unit-bearing literals joined by '
+    '&& or || (single comparisons included; thresholds as literals - fractional ones against int nodes too - or '
+    'held by another node of the same type in another unit), an anchored !format, array dimension bounds; the '
+    'final value is given directly or by 1-2 later modifications and is placed ON a boundary (equal, or equal '
+    'after unit conversion; only with the tolerant operators == != <= >=), NEAR it (1e-4 relative away) or OFF '
+    'it. The truth of every constraint is known by construction (never computed with re or the logical solver). '
+    'Oracle: all satisfied -> parse() returns and the value equals the model; any violated -> parse() raises. '
+    'Non-trivial: >=2 constraint kinds on the node, or an option/threshold in another unit, or a boundary '
+    '(ON/NEAR) value. Also: the mirror image of a numeric case (all numbers negated, inequalities reversed); two '
+    '!condition lines on one node; typed re-definitions of arrays with dimensions of their own; array values '
+    'returned by a registered function; a !condition that refers to another node, with either node assigned last, '
+    'in the same text or in a second parse on top of the returned environment. Later rounds: !format on string '
+    'arrays (refusal direction only) and on multi-line values; options given in a custom unit; || next to && '
+    'without parentheses. Distinct = distinct rendered text.'
+)
 ASSUMPTIONS = [
     "values stay in [0.1, 1e4] (plus a few of 1e-7..1e-10) and are never inside [0.3,3]x the library's 1e-6 relative comparison tolerance of a threshold",
     "strict < > and != are not probed at exact equality reached through a unit conversion (decided by float rounding)",
